@@ -6,9 +6,6 @@ Import ListNotations.
 Local Open Scope string_scope.
 Local Open Scope list_scope.
 
-Definition q_term (c : scls) (q : dsl) : dslc pyval :=
-  let '(m, pos, kw) := q_call q in DLeaf (scls_name c) m pos kw.
-
 (* facts about the generated `except` clauses *)
 Lemma caught_pre_ok : catches (t_caught_pre T) TypeError = true.
 Proof. reflexivity. Qed.
@@ -102,13 +99,33 @@ Proof.
 Qed.
 
 Lemma refused c q doc : doc_ok c doc = false ->
-  (let* _ := entry_check (CLeaf (expected_leaf c q)) doc in
-   let* d := mk_data doc in
-   let* f := filter_tree T res0 (CLeaf (expected_leaf c q)) d in Ok (obs_filter d f)) = Err TypeError.
+  run_filter_cond (CLeaf (expected_leaf c q)) doc = Err TypeError.
 Proof.
-  unfold entry_check. rewrite expected_kind. unfold doc_ok.
+  unfold run_filter_cond, entry_check. rewrite expected_kind. unfold doc_ok.
   destruct doc; destruct (scls_kind c); cbn; try reflexivity;
     try (destruct l; [reflexivity|discriminate]); try (destruct d; [reflexivity|discriminate]).
+Qed.
+
+(* the part of filtering that follows construction, for the leaf a DSL call builds *)
+Lemma leaf_cond_meets_spec c q doc :
+  q_wf q = true ->
+  run_filter_cond (CLeaf (expected_leaf c q)) doc = spec_filter_leaf c q doc.
+Proof.
+  intros Hwf.
+  unfold spec_filter_leaf. destruct (doc_ok c doc) eqn:Hok.
+  2:{ apply refused; exact Hok. }
+  unfold run_filter_cond.
+  rewrite entry_check_ok by exact Hok. cbn [bind].
+  destruct (mk_data_items doc (doc_ok_shape c doc Hok)) as [d [Ed [Hk Hv]]].
+  rewrite Ed. cbn [bind filter_tree]. unfold filter_leaf.
+  rewrite expected_kind, (datums_items c d doc Hk Hv).
+  destruct (mapM_spec (eval_item T res0 (expected_leaf c q)) flags_result
+              (sat_datum c q)
+              (map (fun it => match scls_kind c with DValue => snd it | _ => fst it end) (doc_items doc))
+              (fun x => eval_item_sat c q x Hwf)) as [fls [Em Hr]].
+  rewrite Em. cbn [bind]. unfold obs_filter, spec_obs. cbn [fr_result].
+  rewrite map_map in Hr. rewrite Hr. unfold sat_item.
+  rewrite false_indices_fail_idx, Hk, Hv. reflexivity.
 Qed.
 
 (* The model of `Cls.method(args).filter(doc)` equals the specification on every document:
@@ -122,19 +139,7 @@ Proof.
   intros Hc Hwf. unfold run_filter, q_term.
   pose proof (tie_build c q Hc) as Hb. unfold built in Hb.
   destruct (q_call q) as [[m pos] kw]. cbn [build]. rewrite Hb. cbn [bind].
-  unfold spec_filter_leaf. destruct (doc_ok c doc) eqn:Hok.
-  2:{ apply refused; exact Hok. }
-  rewrite entry_check_ok by exact Hok. cbn [bind].
-  destruct (mk_data_items doc (doc_ok_shape c doc Hok)) as [d [Ed [Hk Hv]]].
-  rewrite Ed. cbn [bind filter_tree]. unfold filter_leaf.
-  rewrite expected_kind, (datums_items c d doc Hk Hv).
-  destruct (mapM_spec (eval_item T res0 (expected_leaf c q)) flags_result
-              (sat_datum c q)
-              (map (fun it => match scls_kind c with DValue => snd it | _ => fst it end) (doc_items doc))
-              (fun x => eval_item_sat c q x Hwf)) as [fls [Em Hr]].
-  rewrite Em. cbn [bind]. unfold obs_filter, spec_obs. cbn [fr_result].
-  rewrite map_map in Hr. rewrite Hr. unfold sat_item.
-  rewrite false_indices_fail_idx, Hk, Hv. reflexivity.
+  apply leaf_cond_meets_spec; exact Hwf.
 Qed.
 
 (* keyword spelling of the same call builds the same leaf *)
